@@ -439,6 +439,7 @@ class Emitter:
                 s.report['externals'][name] = 'model: throws ' + ti
             elif name in o.extern:
                 s.report['externals'][name] = 'harness'
+                if s.res(f.ret).k in ('struct', 'array'): s.redirect_protos['__ret_' + name] = 'typedef %s vf_ret_%s;' % (s.ctype(f.ret), s.gname(name))
             elif name in LIBC_MODELLED:
                 s.report['externals'][name] = 'model: tools/vf_libc.c'
             else:
